@@ -182,21 +182,40 @@ def iterRun (step : Option Date → Option Date × Option Date) : Nat → Option
     let (v, st') := step st
     iterRun step n st' (showOptDate v :: acc)
 
+/-- `Iterator::nth(k)` of a fused iterator given its `next`: k items dropped, then `next` -/
+def nthOf {σ α : Type} (next : σ → Option α × σ) : Nat → σ → Option α × σ
+  | 0, st => next st
+  | k + 1, st => let (_, st') := next st; nthOf next k st'
+
+/-- items left (by iteration, bounded by `fuel`) and the last of them -/
+def drainOf {σ α : Type} (next : σ → Option α × σ) : Nat → σ → Nat → Option α → Nat × Option α
+  | 0, _, n, l => (n, l)
+  | fuel + 1, st, n, l =>
+    match next st with
+    | (none, _) => (n, l)
+    | (some v, st') => drainOf next fuel st' (n + 1) (some v)
+
+/-- the ops of the double-ended iterators: f/b/l as before; n, m = nth(1), nth(3);
+N, M = nth_back(1), nth_back(3); c = clone().count(); z = clone().last(); r = clone().rev().last() -/
+def deOps {σ α : Type} (next back : σ → Option α × σ) (len : σ → Int) (shw : Option α → String) :
+    σ → List Char → List String → List String
+  | _, [], acc => acc.reverse
+  | it, 'f' :: r, acc => let (v, it') := next it; deOps next back len shw it' r (shw v :: acc)
+  | it, 'b' :: r, acc => let (v, it') := back it; deOps next back len shw it' r (shw v :: acc)
+  | it, 'n' :: r, acc => let (v, it') := nthOf next 1 it; deOps next back len shw it' r (shw v :: acc)
+  | it, 'm' :: r, acc => let (v, it') := nthOf next 3 it; deOps next back len shw it' r (shw v :: acc)
+  | it, 'N' :: r, acc => let (v, it') := nthOf back 1 it; deOps next back len shw it' r (shw v :: acc)
+  | it, 'M' :: r, acc => let (v, it') := nthOf back 3 it; deOps next back len shw it' r (shw v :: acc)
+  | it, 'c' :: r, acc => deOps next back len shw it r (s!"c{(drainOf next 64 it 0 none).1}" :: acc)
+  | it, 'z' :: r, acc => deOps next back len shw it r (shw (drainOf next 64 it 0 none).2 :: acc)
+  | it, 'r' :: r, acc => deOps next back len shw it r (shw (drainOf back 64 it 0 none).2 :: acc)
+  | it, _ :: r, acc => deOps next back len shw it r (s!"l{len it}" :: acc)
+
 def daysOps (s : MonthShape) (ops : List Char) : String :=
-  let rec go (it : Days) : List Char → List String → List String
-    | [], acc => acc.reverse
-    | 'f' :: r, acc => let (v, it') := it.next; go it' r (showOptInt v :: acc)
-    | 'b' :: r, acc => let (v, it') := it.nextBack; go it' r (showOptInt v :: acc)
-    | _ :: r, acc => go it r (s!"l{it.len}" :: acc)
-  joinWith "," (go (Days.new s) ops [])
+  joinWith "," (deOps Days.next Days.nextBack Days.len showOptInt (Days.new s) ops [])
 
 def datesOps (s : MonthShape) (ops : List Char) : String :=
-  let rec go (it : Dates) : List Char → List String → List String
-    | [], acc => acc.reverse
-    | 'f' :: r, acc => let (v, it') := it.next; go it' r (showOptDate v :: acc)
-    | 'b' :: r, acc => let (v, it') := it.nextBack; go it' r (showOptDate v :: acc)
-    | _ :: r, acc => go it r (s!"l{it.len}" :: acc)
-  joinWith "," (go (Dates.new s) ops [])
+  joinWith "," (deOps Dates.next Dates.nextBack Dates.len showOptDate (Dates.new s) ops [])
 
 def showOptMonth : Option (Option Month) → String
   | none => "-"
@@ -204,12 +223,7 @@ def showOptMonth : Option (Option Month) → String
   | some (some m) => toString m.number
 
 def monthsOps (ops : List Char) : String :=
-  let rec go (it : MonthIter) : List Char → List String → List String
-    | [], acc => acc.reverse
-    | 'f' :: r, acc => let (v, it') := it.next; go it' r (showOptMonth v :: acc)
-    | 'b' :: r, acc => let (v, it') := it.nextBack; go it' r (showOptMonth v :: acc)
-    | _ :: r, acc => go it r (s!"l{it.len}" :: acc)
-  joinWith "," (go MonthIter.new ops [])
+  joinWith "," (deOps MonthIter.next MonthIter.nextBack MonthIter.len showOptMonth MonthIter.new ops [])
 
 /-- integer widths of the `TryFrom` impls: (min, max) -/
 def widthRange (w : String) : Option (Int × Int) :=
@@ -233,7 +247,7 @@ def namesLine : String :=
 def showAtTime : Option (Option (Date × Int)) → String
   | none => "PANIC"
   | some none => "E:Arithmetic"
-  | some (some (d, s)) => s!"{showDate d} {s}"
+  | some (some (d, s)) => s!"{showDate d} {s} same={b01 ((d.calendar.atJdn? d.jdn).any (·.beq d))}"
 
 /-- history ops: each op maps the current date to a new date through one producer -/
 def histStep (d : Date) (op : String) : Except String Date :=
@@ -257,6 +271,17 @@ def histStep (d : Date) (op : String) : Except String Date :=
   | "E" => match (earlierNext (some d)).1 with | some x => .ok x | none => .error "none"
   | "A" => match (andLaterNext (some d)).1 with | some x => .ok x | none => .error "none"
   | "a" => match (andEarlierNext (some d)).1 with | some x => .ok x | none => .error "none"
+  | "L3" => match (nthOf laterNext 3 (some d)).1 with | some x => .ok x | none => .error "none"
+  | "L9" => match (nthOf laterNext 9 (some d)).1 with | some x => .ok x | none => .error "none"
+  | "E3" => match (nthOf earlierNext 3 (some d)).1 with | some x => .ok x | none => .error "none"
+  | "E9" => match (nthOf earlierNext 9 (some d)).1 with | some x => .ok x | none => .error "none"
+  | "A3" => match (nthOf andLaterNext 3 (some d)).1 with | some x => .ok x | none => .error "none"
+  | "A9" => match (nthOf andLaterNext 9 (some d)).1 with | some x => .ok x | none => .error "none"
+  | "a3" => match (nthOf andEarlierNext 3 (some d)).1 with | some x => .ok x | none => .error "none"
+  | "a9" => match (nthOf andEarlierNext 9 (some d)).1 with | some x => .ok x | none => .error "none"
+  | "LS" =>   -- later().step_by(7).nth(1): the first item, then six dropped, then the next
+    match (nthOf laterNext 6 (laterNext (some d)).2).1 with | some x => .ok x | none => .error "none"
+  | "AS" => match (nthOf andLaterNext 6 (andLaterNext (some d)).2).1 with | some x => .ok x | none => .error "none"
   | "Df" => match c.monthShape d.year d.month with
     | some s => match (Dates.new s).next.1 with | some x => .ok x | none => .error "none"
     | none => .error "noshape"
@@ -342,6 +367,13 @@ def answer (line : String) : String :=
       match i32? y with
       | some y => s!"{showYearKind (c.yearKind y)} {c.yearLength y}"
       | none => "BADREQ"
+  | ["yearsum", ct, y] => withCal ct fun c =>
+      -- kind, length, and the sum of the month lengths (absent months count 0)
+      match i32? y with
+      | some y =>
+        let sum := Month.all.foldl (fun acc m => acc + (match c.monthShape y m with | some s => s.len | none => 0)) (0 : Int)
+        s!"{showYearKind (c.yearKind y)} {c.yearLength y} {sum}"
+      | none => "BADREQ"
   | ["shape", ct, y, m] => withCal ct fun c =>
       match i32? y, monthOfTok m with
       | some y, some m => showShape c y m
@@ -370,6 +402,27 @@ def answer (line : String) : String :=
             | "and_later" => andLaterNext | _ => andEarlierNext
           joinWith " " (iterRun step (n + 2) (some d) [])
       | _, _ => "BADREQ"
+  | ["iterx", k, ct, j, ops] => withCal ct fun c =>
+      -- the open-ended iterators driven through next and the provided methods built on it:
+      -- x = next; n, m, k = nth(1), nth(5), nth(40); S = two items of by_ref().step_by(7)
+      match i32? j with
+      | some j => withDate c j fun d =>
+          let step : Option Date → Option Date × Option Date :=
+            if k == "later" then laterNext else if k == "earlier" then earlierNext
+            else if k == "and_later" then andLaterNext else andEarlierNext
+          let rec go : Option Date → List Char → List String → List String
+            | _, [], acc => acc.reverse
+            | st, 'x' :: r, acc => let (v, st') := step st; go st' r (showOptDate v :: acc)
+            | st, 'n' :: r, acc => let (v, st') := nthOf step 1 st; go st' r (showOptDate v :: acc)
+            | st, 'm' :: r, acc => let (v, st') := nthOf step 5 st; go st' r (showOptDate v :: acc)
+            | st, 'k' :: r, acc => let (v, st') := nthOf step 40 st; go st' r (showOptDate v :: acc)
+            | st, 'S' :: r, acc =>
+              let (v1, st1) := step st
+              let (v2, st2) := nthOf step 6 st1
+              go st2 r (showOptDate v2 :: showOptDate v1 :: acc)
+            | st, _ :: r, acc => go st r acc
+          joinWith " " (go (some d) ops.toList [])
+      | none => "BADREQ"
   | ["cmp_date", c1, j1, c2, j2] => withCal c1 fun a => withCal c2 fun b =>
       match i32? j1, i32? j2 with
       | some j1, some j2 => withDate a j1 fun d1 => withDate b j2 fun d2 =>
